@@ -47,6 +47,36 @@ def verified_from_events(a, c, events):
     return out
 
 
+def compute_wrong(a, fs, c):
+    """Stripes that are wrong right now, judged without the tool: a synced stripe whose parity differs from the generator
+    applied to the recorded versions (version store), or a block of a file that still carries its recorded size and
+    time-stamp but whose bytes on disk differ from the recorded version (silent corruption)."""
+    from .. import parity as P
+    wrong = set()
+    probs, _st = P.check_parity(a, fs, c)
+    for pr in probs:
+        wrong.add(pr["pos"])
+    name2idx = {nm.encode(): i for i, nm in enumerate(a.disk_names)}
+    for f in c.files:
+        d = name2idx[c.disk_name(f.disk)]
+        p = fs.path(d, f.sub)
+        try:
+            st = os.lstat(p)
+        except OSError:
+            continue
+        if st.st_size != f.size or st.st_mtime_ns != f.mtime_sec * 10**9 + max(f.mtime_nsec, 0):
+            continue
+        model = fs.lookup(d, f.sub, f.size, f.mtime_sec, f.mtime_nsec if f.mtime_nsec >= 0 else 0)
+        if model is None:
+            continue
+        with open(p, "rb") as fh:
+            disk = fh.read()
+        for i, (pos, stt, h) in enumerate(f.blocks):
+            if disk[i * c.blocksize:(i + 1) * c.blocksize] != model[i * c.blocksize:(i + 1) * c.blocksize]:
+                wrong.add(pos)
+    return wrong
+
+
 def run_case(case):
     seed, idx, tier = case
     rng = random.Random("c15-%d-%d" % (seed, idx))
@@ -58,6 +88,7 @@ def run_case(case):
     T = 1_600_000_000
     hist = []
     tpl = None
+    truly_bad = set()     # stripes the harness itself made wrong (silent data damage, parity damage): never "verified correct"
     try:
         A.populate(fs, rng, nfiles=rng.randint(8, 20), hostile=0.05, maxblocks=6)
         r = a.cmd("sync", variant=variant, shim={"time": T, "log": False})
@@ -79,20 +110,47 @@ def run_case(case):
                 c = a.load_content()
                 tg = [(f, i) for f in c.files for i, b in enumerate(f.blocks) if b[1] == BLK]
                 for (f, i) in rng.sample(tg, min(len(tg), rng.randint(1, 3))):
-                    dmg.damage_file_block(a, c, f, i, rng, "byte")
+                    if dmg.damage_file_block(a, c, f, i, rng, "byte") == "ok":
+                        truly_bad.add(f.blocks[i][0])
                 r = a.cmd("scrub", "-p", "full", variant=variant, shim={"time": T, "log": False})
                 hist.append(("damage+scrub-full", T, r.rc))
         # optionally files changed since the last sync (unsynced differences)
         unsynced_files = []
+        touched_pos = set()
+        npar_dmg = 0
         if rng.random() < 0.4:
             fl = [x for x in fs.files() if len(fs.entries[x[0]][x[1]][1]) > 0]
+            c = a.load_content()
+            posof = {(c.disk_name(f.disk), f.sub): [b[0] for b in f.blocks] for f in c.files}
             for (d, s) in rng.sample(fl, min(len(fl), rng.randint(1, 3))):
-                if rng.random() < 0.5:
+                k_ = rng.random()
+                if fs.links_of(d, s):
+                    continue
+                if k_ < 0.35:
                     fs.write(d, s, A.gen_bytes(rng, len(fs.entries[d][s][1]), "rand"), keep_inode=True)
+                elif k_ < 0.7:
+                    # same content, new time-stamp: every hash still matches but the blocks count as unsynced
+                    fs.set_mtime(d, s)
+                    touched_pos.update(posof.get((a.disk_names[d].encode(), s), []))
                 else:
                     fs.remove(d, s)
                 unsynced_files.append((a.disk_names[d].encode(), s))
             hist.append(("unsynced-changes", len(unsynced_files)))
+        # optionally damaged parity blocks (preferably in stripes that also hold a touched file)
+        if rng.random() < 0.35:
+            c = a.load_content()
+            usedpos = sorted(c.stripe_map())
+            for _ in range(rng.randint(1, 3)):
+                cand = sorted(touched_pos) if (touched_pos and rng.random() < 0.7) else usedpos
+                if not cand:
+                    break
+                pos = rng.choice(cand)
+                if dmg.damage_parity_block(a, c, rng.randrange(a.nlev), pos, rng, rng.choice(["byte", "block"])) == "ok":
+                    truly_bad.add(pos)
+                    npar_dmg += 1
+            hist.append(("parity-damage", npar_dmg))
+        truly_bad = compute_wrong(a, fs, a.load_content())
+        res["counters"]["layouts_with_wrong_stripes"] = 1 if truly_bad else 0
         tpl = Template(a)
         plans = [["-p", "full"], ["-p", "new"], ["-p", "bad"], [], ["-p", str(rng.choice([0, 1, 5, 13, 33, 50, 77, 100])), "-o", str(rng.choice([0, 0, 3, 10, 40]))],
                  ["-p", str(rng.randint(1, 99))]]
@@ -170,6 +228,20 @@ def run_case(case):
                         silent.add(int(t[1]))
                 elif t[0] == b"parity_error" and len(t) >= 3 and t[1].isdigit():
                     silent.add(int(t[1]))
+            # stripes holding a block whose parity is not valid yet (left by a sync that skipped the stripe): errors there
+            # are "generic" by design, never bad marks
+            unsynced_pos = {p for p, ents in c0.stripe_map().items() if any(e[4] != BLK for e in ents)}
+            # ... or a block of a file that is missing or whose size/time-stamp differ from the recorded ones (changed since the
+            # last sync that recorded it - also when an earlier sync of the layout failed on it)
+            n2i = {nm.encode(): i for i, nm in enumerate(a.disk_names)}
+            for f in c0.files:
+                try:
+                    st_ = os.lstat(fs.path(n2i[c0.disk_name(f.disk)], f.sub))
+                    same = st_.st_size == f.size and st_.st_mtime_ns == f.mtime_sec * 10**9 + max(f.mtime_nsec, 0)
+                except OSError:
+                    same = False
+                if not same:
+                    unsynced_pos.update(b[0] for b in f.blocks)
             for p in changed:
                 if p not in verified:
                     V.append(("books-changed-for-unverified-stripe", "%s: stripe %d info %s -> %s but it was not read" % (label, p, inf0[p], inf1.get(p)), rep))
@@ -184,12 +256,26 @@ def run_case(case):
                         V.append(("books-not-refreshed-for-verified-stripe", "%s: stripe %d verified without error, info %s -> %s (now %d)" % (label, p, v0, v1, now8), rep))
                         break
                 else:
-                    if p in silent and not (p in unsynced_err) and not v1[1] and not unsynced_files:
+                    if p in silent and not (p in unsynced_err) and not v1[1] and p not in unsynced_pos:
                         V.append(("silent-error-not-marked-bad", "%s: stripe %d had an error but is not bad: %s" % (label, p, v1), rep))
                         break
-                    if abs(v1[0] - now8) <= 8 and v1[0] != v0[0] and not v0[1] and p in silent and not unsynced_files:
+                    if abs(v1[0] - now8) <= 8 and v1[0] != v0[0] and not v0[1] and p in silent and p not in unsynced_pos:
                         V.append(("time-refreshed-on-failed-stripe", "%s: stripe %d failed verification but its time was refreshed" % (label, p), rep))
                         break
+            # independent of what the tool reports: a stripe the harness made wrong is not "verified correct", so scrub
+            # must not clear its marks and refresh its time (it either marks it bad or leaves the record as it was)
+            for p in sorted(verified & used & truly_bad):
+                v0, v1 = inf0[p], inf1.get(p)
+                if v1 is None:
+                    continue
+                res["counters"]["wrong_stripes_verified"] = res["counters"].get("wrong_stripes_verified", 0) + 1
+                if not v1[1] and (v1 != v0):
+                    V.append(("books-refreshed-for-stripe-that-is-wrong", "%s: stripe %d holds damage made by the harness (silent data or parity "
+                              "corruption) but scrub recorded it as verified: info %s -> %s" % (label, p, v0, v1), rep))
+                    break
+                if not v1[1] and p not in errpos:
+                    V.append(("wrong-stripe-verified-without-report", "%s: stripe %d holds damage made by the harness but scrub reported nothing for it" % (label, p), rep))
+                    break
             newbad = {p for p, v in inf1.items() if v[1]} - bad0
             if newbad - errpos:
                 V.append(("bad-mark-without-error", "%s: stripes %s marked bad without any reported error" % (label, sorted(newbad - errpos)[:5]), rep))
@@ -206,7 +292,7 @@ def run_case(case):
             if _unmatched(res) >= 3:
                 break
         # ---- bounded progress: default scrubs 11 days apart cover everything within 13 runs
-        damaged_layout = any(h[0] == "damage+scrub-full" for h in hist)
+        damaged_layout = any(h[0] == "damage+scrub-full" for h in hist) or bool(truly_bad)
         if idx % 2 == 0 and not unsynced_files and not damaged_layout and _unmatched(res) == 0:
             tpl.restore()
             c0, inf0 = info_of(a)
